@@ -110,7 +110,11 @@ and build_on (c : ctx) (spec : string) (pre : message -> message) : message =
         let fnum = n_of_int (number ()) in
         if peek () <> '=' then raise (Bad_case "spec: = expected");
         incr i;
-        let v = cstr (hexval ()) in                 (* create_field takes a C string *)
+        (* "~hex": the value is handed to Field<f8String>(const f8String&) with its length (NULs survive);
+           plain hex goes through create_field(fnum, C string) *)
+        let raw = (peek () = '~') in
+        if raw then incr i;
+        let v = (let h = hexval () in if raw then h else cstr h) in
         if find_be c.c_fields fnum = None then raise (Bad_case "spec: no such field");
         let mb1 = unres (add_field mb fnum v) in
         let mb2 =
